@@ -242,5 +242,53 @@ def ready_spin(ob, tier):
     return dict(res, verdict="holds")
 
 
+def interim_storage(ob, tier):
+    """ConnectionH1::writable, hand-over after an interim (1xx) response: `Kawa::clear` resets
+    the parsed blocks only; the storage buffer may already hold the head and first body bytes of
+    the final response (read in the same segment as the 1xx) and must not be wiped — the only
+    `storage.clear()` is the keep-alive reset after a *final* response"""
+    fn = mirrun.get_fn("lib", "::writable", sig="_1: &mut ConnectionH1<Front>")
+    ex = engine.Executor(fn, loop_bound=lambda f, h: 1, max_nodes=200000, models=ready_models(ready_bits()))
+    ev = ex.run()
+    q = Q(ex.ctx)
+    res = {"paths": ex.stats["nodes"], "functions": [fn.name]}
+    codes = [v for k, v in ex.initial.items() if re.search(r" as Response\)\.\d+$", k) and v.sort == 16]
+    wipes = [e for e in ev if e.kind == "call" and re.search(r"kawa::Buffer::<.*>::clear$", e.callee)]
+    resets = [e for e in ev if e.kind == "call" and re.search(r"(^|::)Kawa::<.*>::clear$", e.callee)]
+    if len(codes) != 1 or not resets:
+        return dict(res, verdict="inconclusive", why="shape: status code reads=%d Kawa::clear calls=%d" % (len(codes), len(resets)))
+    code = codes[0].term
+    # the variant index of StatusLine::Response: the discriminant switch that leads to the
+    # block reading `(… as Response).1`
+    key = [k for k, v in ex.initial.items() if v is codes[0]][0]
+    base = re.match(r"\((.*) as Response\)\.\d+$", key).group(1)
+    dsym = ex.initial.get("discr(%s)" % base)
+    variant = None
+    for b in fn.order:
+        m = re.match(r"switchInt\(move _\d+\) -> \[(.*)\]", fn.blocks[b]["term"])
+        for val, tgt in re.findall(r"(\d+): (bb\d+)", m.group(1)) if m else []:
+            if "as Response)" in fn.blocks[tgt]["term"]:
+                variant = int(val)
+    if dsym is None or variant is None:
+        return dict(res, verdict="inconclusive", why="shape: no discriminant switch in front of the status code read")
+    interim = engine.AND("(= %s %s)" % (dsym.term, engine.bv(variant, dsym.sort)),
+                         engine.OR(*["(= %s %s)" % (code, engine.bv(c, 16)) for c in (100, 103)]))
+    problems = []
+    for w in wipes:
+        if q([w.guard, interim])[0] != "unsat":
+            problems.append("the response storage buffer is cleared in the hand-over after an interim (1xx) response: bytes of the final response already read into it are thrown away")
+            break
+    wit = [q([engine.OR(*[r.guard for r in resets]), interim])[0], q([engine.OR(*[w.guard for w in wipes])])[0] if wipes else "none"]
+    res["witness"] = "interim hand-over / keep-alive reset reachable: %s; %d storage wipes" % (wit, len(wipes))
+    res["witness_ok"] = wit[0] == "sat"
+    res["queries"], res["solver_s"] = q.n, round(q.secs, 2)
+    if problems:
+        import os
+        rp = mirrun.native_test("c01_interim", "")
+        return dict(res, verdict="counterexample", text="; ".join(problems), model={"problems": problems},
+                    replay={"reproduced": rp["ran"] and rp["failed"], "path": os.path.join(mirrun.VERIF, "replay/tests/c01_interim.rs"), "log": rp["log"]})
+    return dict(res, verdict="holds")
+
+
 def run(ob, tier):
-    return {"data_rx": data_rx, "ready_spin": ready_spin}[ob["which"]](ob, tier)
+    return {"data_rx": data_rx, "ready_spin": ready_spin, "interim_storage": interim_storage}[ob["which"]](ob, tier)
